@@ -597,6 +597,9 @@ func init() {
 			{Scenario: "auth.matrix", Params: vx.P("transport", "direct"), Weight: 9},
 			{Scenario: "auth.matrix", Params: vx.P("transport", "cdn"), Weight: 9},
 			{Scenario: "auth.second", Params: vx.P("transport", "direct"), Weight: 3},
+			{Scenario: "panel.staleauth", Params: vx.P("change", "credit0"), Bound: 2, BudgetS: 100, Weight: 4},
+			{Scenario: "panel.staleauth", Params: vx.P("change", "expire"), Bound: 2, BudgetS: 100, Weight: 4},
+			{Scenario: "panel.staleauth", Params: vx.P("change", "delete"), Bound: 2, BudgetS: 100, Weight: 4},
 			{Scenario: "auth.second", Params: vx.P("transport", "cdn"), Weight: 3},
 			// "a UID the server currently authorises": admission of every connection along histories of
 			// credit / expiry / cap changes while the user is already active (shared with C15)
